@@ -1301,7 +1301,7 @@ Section Screens.
     Proof.
       intros Hclose. induction c as [c IHc] using scmd_ind'. intros Hw self count.
       apply spec_intro. intros Ps pf cc u HI.
-      destruct c as [sc a|sc a|sc a|sc a| | | | | | | | |o|o|cc0 ck|cc0 cp| |tb|hh sk|hh| | | |k t e]; cbn [do_scmd].
+      destruct c as [sc a|sc a|sc a|sc a| | | | | | | | |o|o|cc0 ck|cc0 cp| | |tb|hh sk|hh| | | |k t e]; cbn [do_scmd].
       - (* push *)
         ic_open HI pm rdy HG. wstep. apply wpc_ev_op; qstep.
         change (expect_of O_PUSH sc a _) with [XAppend sc a (Some false)].
@@ -1368,6 +1368,8 @@ Section Screens.
       - ic_open HI pm rdy HG. repeat wstep. ic_view HG.
       - (* connect *) ic_open HI pm rdy HG. repeat wstep. ic_view HG.
       - (* emit *) ic_open HI pm rdy HG. repeat wstep. ic_view HG.
+      - (* process_signals() from a callback: a nested dispatch, like the blocking wait *)
+        wcall HAPI Ps pf HI1 x; [exact HI | exact HI1 | exact HI1].
       - wcall (get_input_blocking_spec self) Ps pf HI1 x; [exact HI | exact HI1 | exact HI1].
       - (* type-ahead flag *) ic_open HI pm rdy HG. repeat wstep. ic_view HG.
       - (* the application's own InputHandler object asks *)
